@@ -182,6 +182,8 @@ func (e *c25cEnv) steps(o c25cOp) (steps []string, loopTo int) {
 	case "batch":
 		add("vchk", "schk", "wbatch")
 	case "bfunc":
+		add("vchk") // the writer takes the prefix when it is created
+
 		for i := 0; i < len(o.keys); i += 2 {
 			add("schk", fmt.Sprintf("wb%d", i))
 		}
@@ -674,6 +676,10 @@ func (e *c25cEnv) direct(sc c25cScenario, evs []c25cEvent, final c25model) (map[
 
 	sort.Strings(ks)
 
+	var foreign map[string]any
+	var fdetail string
+	var nforeign int
+
 	for _, k := range ks {
 		sv, sok := e.seed[k]
 		fv, fok := final[k]
@@ -712,8 +718,18 @@ func (e *c25cEnv) direct(sc c25cScenario, evs []c25cEvent, final c25model) (map[
 			class = "empty-raw-key"
 		}
 
-		return map[string]any{"half": "concurrent", "kind": "foreign-key-changed", "key": class, "by": wkind, "with_view_close": sc.has("close")},
-			fmt.Sprintf("raw key %x is no key of any call of the scenario, but it changed: seed (%q,%v) final (%q,%v)", k, sv, sok, fv, fok)
+		if foreign == nil {
+			foreign = map[string]any{"half": "concurrent", "kind": "foreign-key-changed", "key": class, "by": wkind, "with_view_close": sc.has("close")}
+			fdetail = fmt.Sprintf("raw key %x is no key of any call of the scenario, but it changed: seed (%q,%v) final (%q,%v)", k, sv, sok, fv, fok)
+		}
+
+		nforeign++
+	}
+
+	if foreign != nil {
+		foreign["foreign_keys_changed"] = map[bool]string{true: "one", false: "several"}[nforeign == 1]
+
+		return foreign, fmt.Sprintf("%s (%d such keys)", fdetail, nforeign)
 	}
 
 	// 2. every key / value delivered by a read is a seed entry or was written by a call, under the prefix and in the range
@@ -915,7 +931,7 @@ func (e *c25cEnv) build(sc c25cScenario) vsched.Scenario {
 
 func c25cSeed(p, q string) c25model {
 	m := c25seed(p, q)
-	m[""] = "s" // the empty raw key: no key of any view
+	m[""] = "e" // the empty raw key: no key of any view
 	m[p+"c"] = "s"
 
 	return m
@@ -959,6 +975,7 @@ func c25cScenarios(x string) []c25cScenario {
 
 		{"put-vs-close", T{{put(0, "a")}, {vclose(0), get(1, "a")}}},
 		{"delete-vs-close", T{{del(0, "a")}, {vclose(0)}, {exists(1, "a")}}},
+		{"get-exists-vs-close", T{{get(0, "a"), exists(0, "zz")}, {vclose(0)}}},
 		{"iter-vs-close", T{{iter(0, nil, nil, true)}, {vclose(0)}}},
 		{"ranged-iter-vs-close-vs-outer-put", T{{iter(1, sp("a"), sp("\xff\xff"), true)}, {vclose(1), put(0, x+"b")}}},
 		{"batch-vs-close-vs-outer-iter", T{{batch(1, "b", "a")}, {vclose(1)}, {iter(0, sp(x), nil, true)}}},
